@@ -5,252 +5,26 @@ Every generated definition is consumed by the model and by property theorems,
 so editing a constant, a table row or one of the translated arithmetic bodies in
 /repo changes a .lean file and the dependent theorems are re-checked.
 
+Generators live in gen/extractors/*.py (each exports GENERATORS = {"Name": fn(repo) -> lean text}).
 Failure to find a source region is an error (exit 2): the tie is broken, the
 caller reports that as such, never as success.
 """
+import glob
+import importlib.util
 import json
 import os
-import re
 import sys
 
+HERE = os.path.dirname(os.path.abspath(__file__))
+sys.path.insert(0, HERE)
+from extractlib import ExtractError, HEADER  # noqa: E402
 
-class ExtractError(Exception):
-    pass
-
-
-def read(repo, rel):
-    p = os.path.join(repo, rel)
-    try:
-        with open(p, encoding="utf-8") as f:
-            return f.read()
-    except OSError as e:
-        raise ExtractError(f"cannot read {rel}: {e}")
-
-
-def strip_comments(src):
-    src = re.sub(r"/\*.*?\*/", "", src, flags=re.S)
-    src = re.sub(r"//[^\n]*", "", src)
-    return src
-
-
-def num(tok):
-    t = tok.replace("_", "")
-    for suf in ("u8", "u16", "u32", "u64", "u128", "usize", "i8", "i16", "i32", "i64", "i128"):
-        if t.endswith(suf) and not t.startswith("0x"):
-            t = t[: -len(suf)]
-    if t.startswith("0x"):
-        return int(t, 16)
-    if t.startswith("0b"):
-        return int(t, 2)
-    return int(t)
-
-
-HEADER = "-- GENERATED by gen/extract.py from /repo — do not edit.\n"
-
-# ---------------------------------------------------------------------------
-# time.rs : constants + integer arithmetic bodies, translated expression by
-# expression into the Outcome monad with checked u64/u128 arithmetic.
-# ---------------------------------------------------------------------------
-
-TOK = re.compile(r"\s*(?:(0x[0-9a-fA-F_]+|\d[\d_]*(?:u64|u128)?)|([A-Za-z_][A-Za-z_0-9]*)|(.))")
-
-
-def tokenize(s):
-    out = []
-    pos = 0
-    s = s.strip()
-    while pos < len(s):
-        m = TOK.match(s, pos)
-        if not m:
-            raise ExtractError(f"cannot tokenize {s[pos:pos+20]!r}")
-        pos = m.end()
-        if m.group(1):
-            out.append(("num", num(m.group(1))))
-        elif m.group(2):
-            out.append(("id", m.group(2)))
-        else:
-            out.append(("op", m.group(3)))
-    return out
-
-
-class ExprParser:
-    """expr := term (('+'|'-') term)* ; term := atom (('*'|'/'|'%') atom)*"""
-
-    def __init__(self, toks):
-        self.t = toks
-        self.i = 0
-
-    def peek(self):
-        return self.t[self.i] if self.i < len(self.t) else (None, None)
-
-    def eat(self):
-        t = self.peek()
-        self.i += 1
-        return t
-
-    def expr(self):
-        l = self.term()
-        while self.peek() in (("op", "+"), ("op", "-")):
-            op = self.eat()[1]
-            r = self.term()
-            l = (op, l, r)
-        return l
-
-    def term(self):
-        l = self.atom()
-        while self.peek() in (("op", "*"), ("op", "/"), ("op", "%")):
-            op = self.eat()[1]
-            r = self.atom()
-            l = (op, l, r)
-        return l
-
-    def atom(self):
-        k, v = self.eat()
-        if k == "num":
-            return ("num", v)
-        if k == "id":
-            if self.peek() == ("op", "("):
-                self.eat()
-                args = []
-                if self.peek() != ("op", ")"):
-                    args.append(self.expr())
-                    while self.peek() == ("op", ","):
-                        self.eat()
-                        args.append(self.expr())
-                if self.eat() != ("op", ")"):
-                    raise ExtractError("expected )")
-                return ("call", v, args)
-            return ("var", v)
-        if (k, v) == ("op", "("):
-            e = self.expr()
-            if self.eat() != ("op", ")"):
-                raise ExtractError("expected )")
-            return e
-        raise ExtractError(f"unexpected token {k} {v}")
-
-
-def lean_ident(name):
-    return name
-
-
-def expr_to_lean(e, w, counter):
-    k = e[0]
-    if k == "num":
-        return f"(Outcome.ok {e[1]})"
-    if k == "var":
-        return f"(Outcome.ok {lean_ident(e[1])})"
-    if k == "call":
-        # only unary integer helpers defined in the same file
-        args = e[2]
-        names = []
-        s = ""
-        for a in args:
-            counter[0] += 1
-            n = f"x{counter[0]}"
-            names.append(n)
-            s += f"Outcome.bind {expr_to_lean(a, w, counter)} fun {n} => "
-        return f"({s}{lean_ident(e[1])} {' '.join(names)})"
-    op, l, r = e
-    counter[0] += 1
-    a = f"x{counter[0]}"
-    counter[0] += 1
-    b = f"x{counter[0]}"
-    fn = {"+": f"addU {w}", "-": "subU", "*": f"mulU {w}", "/": "divU", "%": "modU"}[op]
-    return (f"(Outcome.bind {expr_to_lean(l, w, counter)} fun {a} => "
-            f"Outcome.bind {expr_to_lean(r, w, counter)} fun {b} => {fn} {a} {b})")
-
-
-def gen_time(repo):
-    src = strip_comments(read(repo, "crates/rs1090/src/decode/time.rs"))
-    out = [HEADER, "import Rs1090.Model.Basic\nnamespace Rs1090.Gen.Time\nopen Rs1090\n"]
-    consts = re.findall(r"static\s+([A-Z_0-9]+)\s*:\s*(u64|u128)\s*=\s*([0-9_xa-fA-F]+)\s*;", src)
-    if not consts:
-        raise ExtractError("time.rs: no static constants found")
-    for name, _ty, val in consts:
-        out.append(f"def {name} : Nat := {num(val)}")
-    need = {"today_in_s", "gps_week_in_s", "since_gps_week_to_since_today"}
-    found = set()
-    for m in re.finditer(
-        r"pub fn\s+(\w+)\s*\(\s*(\w+)\s*:\s*(u64|u128)\s*\)\s*->\s*(u64|u128)\s*\{(.*?)\n\}", src, flags=re.S
-    ):
-        name, arg, aty, rty, body = m.groups()
-        if name not in need:
-            continue
-        body = body.strip()
-        if ";" in body:
-            raise ExtractError(f"time.rs: {name}: body is no longer a single expression")
-        toks = tokenize(body)
-        p = ExprParser(toks)
-        e = p.expr()
-        if p.i != len(toks):
-            raise ExtractError(f"time.rs: {name}: trailing tokens")
-        w = 64 if rty == "u64" else 128
-        out.append(f"/-- `{name}` ({aty} -> {rty}), body: `{' '.join(body.split())}` -/")
-        out.append(f"def {name} ({arg} : Nat) : Outcome Nat :=\n  {expr_to_lean(e, w, [0])}")
-        found.add(name)
-    if found != need:
-        raise ExtractError(f"time.rs: functions not found or not translatable: {sorted(need - found)}")
-    out.append("end Rs1090.Gen.Time\n")
-    return "\n".join(out)
-
-
-# ---------------------------------------------------------------------------
-# crc.rs : CRC_TABLE
-# ---------------------------------------------------------------------------
-
-def gen_crc(repo):
-    src = strip_comments(read(repo, "crates/rs1090/src/decode/crc.rs"))
-    m = re.search(r"CRC_TABLE\s*:\s*\[u32;\s*256\]\s*=\s*\[(.*?)\];", src, flags=re.S)
-    if not m:
-        raise ExtractError("crc.rs: CRC_TABLE not found")
-    vals = [num(x) for x in re.findall(r"0x[0-9a-fA-F_]+|\d+", m.group(1))]
-    if len(vals) != 256:
-        raise ExtractError(f"crc.rs: CRC_TABLE has {len(vals)} entries")
-    rows = ",\n  ".join(", ".join(str(v) for v in vals[i:i + 8]) for i in range(0, 256, 8))
-    return (HEADER + "namespace Rs1090.Gen.Crc\n"
-            f"def crcTable : List Nat := [\n  {rows}]\n"
-            "end Rs1090.Gen.Crc\n")
-
-
-# ---------------------------------------------------------------------------
-# decode/mod.rs : literals of the 13-bit altitude reader
-# ---------------------------------------------------------------------------
-
-def f32_of_literal(text):
-    """exact value of the f32 nearest to a decimal literal, as (numerator, exponent): num / 2^exp"""
-    import struct
-    from fractions import Fraction
-    f = struct.unpack("f", struct.pack("f", float(text)))[0]
-    fr = Fraction(f)
-    e = fr.denominator.bit_length() - 1
-    if fr.denominator != 1 << e:
-        raise ExtractError("f32 literal is not dyadic?")
-    return fr.numerator, e
-
-
-def gen_altitude(repo):
-    src = strip_comments(read(repo, "crates/rs1090/src/decode/mod.rs"))
-    m = re.search(r"\(\s*meters\s+as\s+f32\s*\*\s*([0-9.]+)\s*\)\s*as\s+u16", src)
-    if not m:
-        raise ExtractError("mod.rs: metric altitude conversion `(meters as f32 * K) as u16` not found")
-    n, e = f32_of_literal(m.group(1))
-    m2 = re.search(r"if\s+n\s*>\s*(\d+)\s*\{\s*Ok\(\s*n\s*\*\s*(\d+)\s*-\s*(\d+)\s*\)", src)
-    if not m2:
-        raise ExtractError("mod.rs: `if n > 40 { Ok(n * 25 - 1000) }` not found")
-    return (HEADER + "namespace Rs1090.Gen.Altitude\n"
-            f"/-- f32 nearest to the literal `{m.group(1)}` is FT_PER_M_NUM / 2^FT_PER_M_EXP -/\n"
-            f"def FT_PER_M_NUM : Nat := {n}\ndef FT_PER_M_EXP : Nat := {e}\n"
-            f"def AC13_N_MIN : Nat := {int(m2.group(1))}\n"
-            f"def AC13_STEP : Nat := {int(m2.group(2))}\n"
-            f"def AC13_OFFSET : Nat := {int(m2.group(3))}\n"
-            "end Rs1090.Gen.Altitude\n")
-
-
-GENERATORS = {
-    "Altitude": gen_altitude,
-    "Time": gen_time,
-    "Crc": gen_crc,
-}
+GENERATORS = {}
+for _p in sorted(glob.glob(os.path.join(HERE, "extractors", "*.py"))):
+    _spec = importlib.util.spec_from_file_location("extractor_" + os.path.basename(_p)[:-3], _p)
+    _m = importlib.util.module_from_spec(_spec)
+    _spec.loader.exec_module(_m)
+    GENERATORS.update(_m.GENERATORS)
 
 
 def main():
